@@ -14,13 +14,24 @@ NONEXC = {"next", "true", "false", "iter", "done", "match", "nomatch"}
 class Fn:
     """A function of the repo with its CFG and def-use helpers."""
 
-    def __init__(self, repo: Repo, module: Module, qual: str):
+    def __init__(self, repo: Repo, module: Module, qual: str, effects=None):
+        """With `effects` (sa.effects.Effects) exception edges are added only where the effect analysis says the
+        statement may raise (or awaits: cancellation); without it every call/subscript/await may raise."""
         self.repo = repo
         self.module = module
         self.qual = qual
         self.node = module.get_function(qual)
         self.cls: Optional[ClassInfo] = module.classes.get(qual.split(".")[0]) if "." in qual else None
-        self.cfg = cfgmod.build(self.node, qual)
+        raises = None
+        if effects is not None:
+            cls = self.cls
+
+            def raises(probe, effects=effects, module=module, cls=cls):
+                if isinstance(probe, ast.stmt):
+                    return effects.of_stmt(probe, module, cls) != frozenset()
+                return effects.of_expr(probe, module, cls) != frozenset()
+
+        self.cfg = cfgmod.build(self.node, qual, raises)
         self._rd: dict = {}
         self.params = [a.arg for a in self.node.args.posonlyargs + self.node.args.args + self.node.args.kwonlyargs]
 
@@ -92,29 +103,29 @@ class Fn:
             return (d, d.ast.value)
         return None
 
-    def expand(self, expr: ast.AST, at, depth: int = 0) -> ast.AST:
-        """Inline local variables with a unique simple definition reaching `at` (recursively)."""
+    def expand(self, expr: ast.AST, at, depth: int = 0, keep=()) -> ast.AST:
+        """Inline local variables with a unique simple definition reaching `at` (recursively); names in `keep` stay."""
         if depth > 12:
             return expr
         fn = self
 
         class T(ast.NodeTransformer):
             def visit_Name(self, n):
-                if not isinstance(n.ctx, ast.Load):
+                if not isinstance(n.ctx, ast.Load) or n.id in keep:
                     return n
                 u = fn.unique_def_value(n.id, at)
                 if u is None or u[1] is None:
                     return n
                 dnode, val = u
-                return fn.expand(copy.deepcopy(val), dnode, depth + 1)
+                return fn.expand(copy.deepcopy(val), dnode, depth + 1, keep)
 
             def visit_Lambda(self, n):
                 return n
 
         return T().visit(copy.deepcopy(expr))
 
-    def expand_text(self, expr: ast.AST, at) -> str:
-        return norm_text(self.expand(expr, at))
+    def expand_text(self, expr: ast.AST, at, keep=()) -> str:
+        return norm_text(self.expand(expr, at, keep=keep))
 
     def is_param(self, name: str, at) -> bool:
         ds = self.defs_reaching(name, at)
